@@ -22,6 +22,7 @@ META = {
     "engine": "E1 nir2smt for event.Monitor; E2 symex for event.EventMap",
     "encoded": ["event.Monitor.__init__", "event.Monitor.elaborate", "event.Source", "event.EventMap.add",
                 "event.EventMap.index", "event.EventMap.sources", "event.EventMap.freeze", "event.EventMap.size"],
+    "also": '9 and 17 (thorough 33) sources; triggers given as enum members',
     "bounds": "n = 0..4 sources (thorough 0..6), all 3^n trigger assignments (thorough: all up to n=5, seeded "
               "sample for n=6), sources added in permuted order; 2 frames free + 1 frame reset; EventMap: call "
               "sequences of <= 5 (thorough 6) calls over 3 sources with symbolic source choice",
